@@ -1,6 +1,54 @@
+(* C05 — temporal connectives mean what they say on every trace.
+   Statements only (proofs: Cnl/TemporalProofs.v).  Unbounded in formula depth and trace length.
+   compile_* is the model of parser.telingo_operation/... + asp_converter.convert_operation (tied to /repo by exact-text
+   correspondence on every run); tsat/body_sat is what telingo computes for the printed formula (validated against telingo
+   on all traces up to length 3/4); treading is the specification: the phrase structure read as LTL with past.
+   The dual-operator, constant and symbol tables and the Operators enum are regenerated from /repo. *)
 Require Import Coq.Strings.String Coq.Lists.List Coq.Bool.Bool.
-Require Import Cnl2aspV.Tel.Sem Cnl2aspV.Tel.Syntax Cnl2aspV.Cnl.Temporal.
+Require Import Cnl2aspV.Tel.Sem Cnl2aspV.Tel.Syntax Cnl2aspV.Cnl.Temporal Cnl2aspV.Cnl.TemporalProofs.
 Import ListNotations.
 Open Scope string_scope.
-Example C05_placeholder : render_formula (TFLast false false None (OLeaf (TEnt ENone "p" "1")) None) = "there is a p with id 1".
-Proof. reflexivity. Qed.
+
+(* 'Whenever <condition>, then ...': the body of the compiled rule is true at a state exactly when the condition is.
+   Hypotheses: the reading is defined (the sentence is expressible), the compiled formula is free of the three recorded
+   printing defects (body_clean), and the sentence is not 'there is not <constant>' alone (negation_guard). *)
+Theorem C05_formula_correct_partial :
+  forall (f : tformula) (tr : trace) (R : sig) (b : body_item),
+    negation_guard f = true -> treading tr f = Some R -> compile_condition f = COk b -> body_clean b = true ->
+    body_sat tr b = Some R.
+Proof. exact condition_correct. Qed.
+Print Assumptions C05_formula_correct_partial.
+
+(* constraints: prohibited rejects the states where the condition holds, required those where it does not *)
+Theorem C05_constraint_correct_partial :
+  forall (required : bool) (f : tformula) (tr : trace) (R : sig) (b : body_item),
+    negation_guard f = true -> treading tr f = Some R -> compile_constraint required f = COk b -> body_clean b = true ->
+    exists Sg, body_sat tr b = Some Sg /\ forall k, Sg k = (if required then negb (R k) else R k).
+Proof. exact constraint_correct. Qed.
+Print Assumptions C05_constraint_correct_partial.
+
+(* every connective: name -> operator (generated table) -> symbol (generated table) -> the meaning the name states *)
+Theorem C05_connectives :
+  forall lam d dop F G W, dual_op d = Some dop -> r_dual lam d F G = Some W ->
+    exists s, tsym dop = Some s /\ sem_bin lam s F G = Some W.
+Proof. exact dual_agree. Qed.
+Print Assumptions C05_connectives.
+
+(* the FULL statement (without body_clean) is false of the faithful model: recorded findings *)
+Theorem C05_nested_initially_refuted :
+  exists tr k b R Sg, treading tr f_nested_init = Some R /\ compile_condition f_nested_init = COk b /\
+                      body_sat tr b = Some Sg /\ Sg k <> R k.
+Proof. exact nested_initially_refuted. Qed.
+Theorem C05_primes_refuted :
+  exists b, compile_condition f_prime = COk b /\ (forall tr, treading tr f_prime <> None) /\ (forall tr, body_sat tr b = None).
+Proof. exact primes_refuted. Qed.
+Theorem C05_negated_entity_unclean :
+  exists b, compile_condition f_neg_entity = COk b /\ body_clean b = false /\
+            print_body_item true b = "not not &tel {p(1) | not q(2)}".
+Proof. exact negated_entity_unclean. Qed.
+
+(* non-vacuity *)
+Theorem C05_example_supported :
+  negation_guard f_example = true /\ (forall tr, treading tr f_example <> None) /\
+  exists b, compile_condition f_example = COk b /\ body_clean b = true /\ print_body_item true b = "not not &tel {<* p(1)}".
+Proof. exact example_supported. Qed.
